@@ -199,19 +199,35 @@ def load_oracle(ctx, c):
                 raise PropertyViolation("C20/loader/components", "vector of mode %d at q %d differs from the printed components" % (m, iq), c)
 
 
-def sub_loader(ctx):
+def loader_target(ctx):
     def body(c):
         load_oracle(ctx, c)
         ctx.case(c, c["nq"] >= 2, classes=["loader", "nq=%d" % c["nq"]])
 
-    ctx.run_given(body, load_cases(), max_examples=ctx.n(64, 4000))
+    return body, (load_cases(),)
+
+
+def sub_loader(ctx):
+    body, sts = loader_target(ctx)
+    ctx.run_given(body, *sts, max_examples=ctx.n(64, 4000))
+
+
+def fuzz_targets(ctx):
+    return {"loader": loader_target(ctx)}
+
+
+def sub_fuzz(ctx):
+    if ctx.quick or not ctx.primary:
+        return
+    import sys
+    ctx.run_fuzz(sys.modules[__name__], "loader", runs=50000, max_time=60)
 
 
 def subchecks(ctx):
-    return [("sort", sub_sort), ("conversion", sub_conversion), ("loader", sub_loader)]
+    return [("sort", sub_sort), ("conversion", sub_conversion), ("loader", sub_loader), ("fuzz", sub_fuzz)]
 
 
 def replay(ctx, payload):
     c = payload["case"]
     sub = payload.get("subcheck")
-    {"sort": sort_oracle, "conversion": conv_oracle, "loader": load_oracle}[sub](ctx, c)
+    {"sort": sort_oracle, "conversion": conv_oracle, "loader": load_oracle, "fuzz": load_oracle}[sub](ctx, c)
